@@ -165,6 +165,21 @@ def r2_associativity(ctx: Ctx) -> None:
              or (isinstance(s_, ast.Assign) and unparse(s_.targets[0]) == "operator_stack" and unparse(s_.value) in ("operator_stack[:-1]", "operator_stack[:lparen_index]"))]
     ctx.check(len(drops) == 1, "shunting_yard:paren-discarded", "the open parenthesis itself is popped and dropped: left on the stack it keeps stopping the pop loop, so "
               "`2*(3)+4` groups as 2*((3)+4)")
+    # the matching "(" is searched from the top of the stack down to its bottom, both ends included
+    rf = ctx.repo.try_func(EXPR, "reverse_find_token")
+    if rf is not None and any(call_name(c) == "reverse_find_token" for c in calls_in(rp[0])):
+        loops_rf = [n for n in walk_no_nested(rf.node) if isinstance(n, ast.For)]
+        items_p, value_p = rf.params()[0], rf.params()[1]
+        if len(loops_rf) == 1 and isinstance(loops_rf[0].iter, ast.Call) and call_name(loops_rf[0].iter) == "range" and len(loops_rf[0].iter.args) == 3:
+            a0, a1, a2 = (unparse(x) for x in loops_rf[0].iter.args)
+            ctx.check((a0, a1, a2) == (f"len({items_p}) - 1", "-1", "-1"), "reverse_find_token:range", f"indices len-1 .. 0; found range({a0}, {a1}, {a2}) "
+                      "(starting lower misses a parenthesis on top of the stack: `(1)` becomes a mismatch; stopping higher misses the bottom one)")
+            rets_rf = [unparse(r.value) for r in returns_of(rf.node)]
+            ctx.check(sorted(rets_rf) == sorted([unparse(loops_rf[0].target), "-1"]), "reverse_find_token:returns", f"the index found, else -1; returns {rets_rf}")
+        elif len(loops_rf) == 1 and unparse(loops_rf[0].iter) in (f"reversed(range(len({items_p})))", f"range(len({items_p}))[::-1]"):
+            ctx.ok("reverse_find_token:range", "all indices, last first")
+        else:
+            raise AnalysisError("reverse_find_token: search loop not modelled")
     miss = [s_ for s_ in body if isinstance(s_, ast.If) and always_raises(s_.body) and "lparen" in unparse(s_.test).lower()]
     ctx.check(len(miss) == 1, "shunting_yard:mismatched-paren", "a closing parenthesis without an open one raises")
     # unary/binary classification in the parser
